@@ -357,6 +357,12 @@ empty @is_you(int a, int b) {
 ]
 
 TEMPLATES += [
+    # library routines with internal branches (sign of write(int), write(bool), string loops) inside a try that later defeats
+    ('library_calls_then_defeat', '''empty @is_you(int a, int b) {
+  try { write(a); write(' '); write(0 - 7); writeln(a < b); write("str"); byte[] q = ['q', 'r']; write(q); write(a is byte); !truth_is_defeat(b == 1); write('n'); } %(kind)s { write('h'); }
+  try { write(0 - a); write(b > 0); write(""); writeln(); !truth_is_defeat(a < 0); write('m'); } %(kind)s { write('H'); write(a); }
+  write('>');
+}''', [[a, b] for a in (-5, 0, 12345, -32768) for b in (0, 1)]),
     # a try body that certainly ends in defeat IF it gets there: a fault or an endless loop on the way wins over the defeat
     ('certain_defeat_not_reached', '''int g = 0;
 empty !boom(int d) { write('x'); write(10 / d); !is_defeat(); }
@@ -694,6 +700,11 @@ int checked(int x) { expect(x >= 0, "neg"); write('c'); return x * 2; }
 empty last_call(int x) { write('l'); expect(x != 7, "seven"); }
 empty @is_you(int x) { expect(x != 3, "three"); write('a'); write(checked(x)); last_call(x); write('b'); finish(x); write('e'); expect(x == 1, "not one"); write('z'); }''',
      [['1'], ['3'], ['-2'], ['7'], ['9'], ['2']]),
+    ('preempt_break_out_of_endless_loop', '''int x = 0;
+empty !f() { !truth_is_defeat(x == 1); }
+int !spin(int a) { int n = 0; while (true) { n += 1; preempt { write('p'); break; } if (n > 2) { x = a; !f(); return n; } } write('o'); return 0 - n; }
+empty @is_you(int a) { try { write(!spin(a)); write('n'); } %(kind)s { write('h'); } int k = 0; while (true) { k += 1; if (k == 2) { break; } } write(k); write('>'); }
+empty intruder() { write("INTRUDER"); }''', [['0'], ['1']]),
     ('nested_terminal', '''int pick(int x) { if (x == 0) { return 1; } else { if (x == 1) { all_is_win(); } else { while (true) { if (x == 2) { return 3; } x -= 1; } } } }
 int pick2(int x) { for (;;) { if (x > 3) { all_is_broken(); } if (x == 3) { break; } x += 1; } return x; }
 empty @is_you(int x) { write(pick2(x)); write(pick(x)); write('>'); }''', [['0'], ['1'], ['2'], ['5'], ['3']]),
